@@ -5,16 +5,21 @@ three driver instances x (2 ins, 2 outs) x fault sets; invariants and action pro
 graph TLC dumps for MC_Registry is walked through the real package-level API on fake drivers (harness/cmd/vh_registry
 walk): every transition behind a shortest path to its source state.  Binding T: seeded random longer call sequences over
 random layouts / fault sets, including the one-second recording wrappers, judged line by line by spec/Trace_Registry.tla.
+Part M (spec/RegistryMidicat.tla, MC_RegistryMidicat, Trace_RegistryMidicat, harness/cmd/vh_registry_mcat + the stand-in helper
+harness/cmd/midicat_x05): the process-backed driver midicatdrv as the registered driver -- version gate of New(), Ins / Outs
+from the helper's JSON, Driver.Close / midi.CloseDriver.
 """
 import concurrent.futures as cf
 import json
 import multiprocessing as mp
 import os
 import re
+import subprocess
 from collections import Counter
-from vlib.engine import Failure, Machinery, parse_tla_value, _P
+from vlib.engine import Failure, Machinery, goenv, parse_tla_value, _P
 
 PKG = "./cmd/vh_registry"
+PKG_M = "./cmd/vh_registry_mcat"
 KEEP = ("res", "call", "flt", "obs")     # s and k are not needed for the walk
 _node_re = re.compile(r'^(-?\d+) \[label="(.*?)"(,style = filled)?(?:,tooltip=".*")?\];?$')
 _edge_re = re.compile(r'^(-?\d+) -> (-?\d+) \[')
@@ -225,6 +230,86 @@ def rerun(ctx, rec):
     return bool(bad), new, info
 
 
+# ---------------------------------------------------------------- part M: drivers/midicatdrv against the stand-in helper
+def _mcat_env(ctx):
+    hd = ctx._harness_copy()
+    bindir = os.path.join(ctx.scratch, "x05_standin_bin")
+    if not os.path.exists(os.path.join(bindir, "midicat")):
+        os.makedirs(bindir, exist_ok=True)
+        p = subprocess.run(["go", "build", "-o", os.path.join(bindir, "midicat"), "./cmd/midicat_x05"], cwd=hd, env=goenv(), capture_output=True, text=True)
+        if p.returncode != 0:
+            raise Machinery("stand-in helper build failed: " + p.stderr)
+    e = dict(os.environ)
+    e["PATH"] = bindir + ":" + e["PATH"]
+    for k in ("X05_VERSION", "X05_INS", "X05_OUTS", "X05_INS_RC", "X05_OUTS_RC"):
+        e.pop(k, None)
+    return e
+
+
+def mcat_gen(ctx, jobs):
+    vh = ctx.build(PKG_M)
+    env = _mcat_env(ctx)
+    d = ctx.sub("mcatgen")
+
+    def one(j):
+        k, (n, seed) = j
+        o = os.path.join(d, "m_%d.ndjson" % k)
+        ctx.run([vh, "gen", "-n", str(n), "-seed", str(seed), "-out", o] + (["-directed"] if k == 0 else []), timeout=1800, env=env)
+        rs = [json.loads(x) for x in open(o) if x.strip()]
+        for r in rs:
+            r["id"] = k * 100000 + r["id"]
+        return rs
+    recs = []
+    with cf.ThreadPoolExecutor(max_workers=max(1, min(len(jobs), 8))) as ex:
+        for x in ex.map(one, list(enumerate(jobs))):
+            recs += x
+    return recs
+
+
+def mcat_describe(r, info):
+    info = info or {}
+    txt = lambda b: bytes(b).decode("latin1")
+    return ("midicatdrv id=%s: %s | helper version %r -> New ok=%s%s | ins helper output %r rc=%d -> %s %s | outs %r rc=%d -> %s %s | opened ins %s outs %s, close via %s -> %s, "
+            "IsOpen before %s after %s reopened %s | %s" % (
+                r["id"], info.get("what"), txt(r["ver"]), r["newok"], " PANIC " + r["newpan"][:100] if r["newpan"] else "",
+                txt(r["ins"]["raw"]), r["ins"]["rc"], r["insret"], [(p["num"], txt(p["name"])) for p in r["inslist"]],
+                txt(r["outs"]["raw"]), r["outs"]["rc"], r["outsret"], [(p["num"], txt(p["name"])) for p in r["outslist"]],
+                r["openin"], r["openout"], r["via"], r["closeret"], r["before"], r["after"], r["reopen"],
+                (r["pan"][:200] + " " if r["pan"] else "") + json.dumps(info.get("x"))[:500]))
+
+
+def mcat_judge(ctx, recs, shards=None):
+    bad = ctx.validate("Trace_RegistryMidicat", recs, shards=shards, timeout=1500)
+    fails = []
+    for idx, info in bad:
+        r = recs[idx]
+        info = info or {}
+        if info.get("genbug"):
+            raise Machinery("midicatdrv experiment outside the domain of X05 part M: %s (id %s)" % (json.dumps(info)[:300], r.get("id")))
+        fails.append(Failure("registry-mcat:" + info.get("what", "?"), mcat_describe(r, info), {"family": "registry-mcat", "record": r}))
+    return fails
+
+
+def mcat_rerun(ctx, rec):
+    vh = ctx.build(PKG_M)
+    d = ctx.sub("mreplay")
+    i, o = os.path.join(d, "in.ndjson"), os.path.join(d, "out.ndjson")
+    open(i, "w").write(json.dumps(rec) + "\n")
+    ctx.run([vh, "rerun", "-in", i, "-out", o], timeout=600, env=_mcat_env(ctx))
+    new = json.loads(open(o).read())
+    bad = ctx.validate("Trace_RegistryMidicat", [new], shards=1)
+    info = bad[0][1] if bad else None
+    if info and info.get("genbug"):
+        raise Machinery("replayed experiment is outside the domain: %s" % info)
+    return bool(bad), new, info
+
+
+def confirm(ctx, f):
+    if f.payload["family"] == "registry-mcat":
+        return mcat_rerun(ctx, f.payload["record"])[0]
+    return rerun(ctx, f.payload["record"])[0]
+
+
 def run(ctx):
     q = ctx.quick
     ctx.cov["rule"] = (
@@ -241,16 +326,25 @@ def run(ctx):
         "sequences to the config's depth, all query values) executed on the real API behind a shortest path to its source state, result + open flags + "
         "listeners + Get() compared after every call. T: seeded random sequences of 6-40 calls over random layouts (1-4 drivers, 0-3 ports, names over abc, "
         "numbers in or out of listing order, random fault sets), incl. SMF.RecordFrom / RecordTo sequences. evaluations = calls executed and compared; "
-        "distinct = sequences that hit an error path of a session helper or a lookup on a faulty driver")
+        "distinct = sequences that hit an error path of a session helper or a lookup on a faulty driver. "
+        "Part M (spec/RegistryMidicat.tla), the process-backed driver midicatdrv as registered driver against a stand-in `midicat` on PATH: M1 New() hands out a driver "
+        "for every helper version in [0.6.8, 0.7.0) and refuses versions below 0.6.8 and strings that are no version ([v]MAJOR[.MINOR[.PATCH]], not all zero); "
+        "M2 drivers.Ins() / Outs() = the helper's JSON object as ports (Number = index, String = name) in ascending index order, error when the helper fails, prints "
+        "garbage or a non-numeric index; M3 Driver.Close() / midi.CloseDriver() leave no listed port open, ports can be opened again; the registered driver is midicatdrv. "
+        "Experiments: a table of 36 version strings + random versions around the window, 0-6 ports with shuffled indices, helper exit codes 0-3, 5 kinds of garbage")
     ctx.cov["checker_cmd"] = ("tlc MC_Registry (TypeOK NamesOnce GetIsFirst ListingIsFirstDrivers FoundIsFirstMatch FoundOpenOrClosed NoPortWithError ListeningIsOpen "
                               "FaultyNeverOpen StartedMeansOpenAndListening FailedMeansNoListener SendToMeansOpen Total FindAgreesWithByName NegativeOrEmptyNeverFinds "
-                              "+ 13 action properties A_*) ; vh_registry walk ; tlc Trace_Registry (RgOutcomes / RgExplains)")
+                              "+ 13 action properties A_*) ; vh_registry walk ; tlc Trace_Registry (RgOutcomes / RgExplains) ; "
+                              "tlc MC_RegistryMidicat (ParseTotal GateIsWindow + ASSUMEd lemmas: examples, parse/print, strict total order, listing = ascending permutation) ; "
+                              "vh_registry_mcat ; tlc Trace_RegistryMidicat (RmGate / RmListing)")
     ctx.cov["trusted_base"] = ["TLC", "spec/Registry.tla as the statement of X05",
                                "the fake driver of harness/cmd/vh_registry as an implementation of the drivers.Driver / In / Out contract (Open / Close idempotent, "
                                "Open fails iff configured and leaves the port closed, Close ends listening, Driver.Close closes its ports)",
                                "harness recording: identity of returned ports / drivers by pointer, listener ids by order of successful starts; "
                                "recorded messages counted by byte equality with the injected ones; structural comparison walk step = model state (matches)",
-                               "layout of the walk taken from TLC's own output (X05LAYOUT)"]
+                               "layout of the walk taken from TLC's own output (X05LAYOUT)",
+                               "part M: the stand-in helper cmd/midicat_x05 (prints what the environment says; an `in` / `out` helper process just stays alive); "
+                               "the five garbage outputs are no JSON objects with string values"]
     ctx.assumptions += [
         "domain: the registry is changed through drivers.Register only (no deletion from the exported map REGISTRY during a sequence); port numbers are >= 0 and unique within the in / the out ports of a driver (drivers.Port.Number)",
         "protocol: one listener per in port (stop before the next ListenTo / RecordFrom on that port), each stop function called once; a send function is used only after SendTo returned it",
@@ -259,8 +353,12 @@ def run(ctx):
         "what SMF.RecordFrom adds to the SMF on its error path; deltas, tempo and file content of recordings beyond the number of recorded messages (C13); "
         "SMF.RecordFrom on a file with SMPTE time format (panics on a type assertion; outside the domain: smf.New() is metric)",
         "InPorts.String / OutPorts.String are judged on the random traces only (the walk compares result and state, not the text)",
+        "part M domain: version components 0..65535 without sign or white space, at most one leading v; from 0.7.0 on the gate is left open (only the driver's own message mentions the upper bound); "
+        "indices canonical decimals, distinct; HOW New() refuses is left open (it panics); helper processes start (the stand-in is on PATH); in / out ports are only opened and closed here (traffic: C17)",
     ]
     ctx.build(PKG)
+    ctx.build(PKG_M)
+    _mcat_env(ctx)
     # ---- binding T (runs beside the model check: its recording calls mostly sleep)
     if q:
         jobs = [(500, ctx.seed * 1000, False)] + [(3, ctx.seed * 1000 + 1 + i, True) for i in range(16)]
@@ -268,12 +366,14 @@ def run(ctx):
         jobs = [(2500, ctx.seed * 1000 + 100 + i, False) for i in range(4)] + [(12, ctx.seed * 1000 + 200 + i, True) for i in range(32)]
 
     def traces():
+        ms = mcat_gen(ctx, [(60 if q else 250, ctx.seed * 1000 + 500 + i) for i in range(4 if q else 8)])
         rs = gen(ctx, jobs)
-        return rs, judge(ctx, rs)
+        return rs, judge(ctx, rs), ms, mcat_judge(ctx, ms)
     pool = cf.ThreadPoolExecutor(max_workers=1)
     fut = pool.submit(traces)
     # ---- model + binding G
     try:
+        ctx.model_check("MC_RegistryMidicat", "MC_RegistryMidicat_quick.cfg" if q else "MC_RegistryMidicat.cfg", timeout=1200)
         if q:
             res, nn, ne = walk(ctx, "MC_Registry_quick.cfg")
         else:
@@ -286,7 +386,7 @@ def run(ctx):
             if not fails:
                 raise Machinery("walker flagged %d sequences that TLC accepts (walk and trace specification disagree)" % len(res["bad"]))
     finally:
-        recs, tfails = fut.result()
+        recs, tfails, mrecs, mfails = fut.result()
         pool.shutdown()
     ctx.cov["graph_walk"] = {"model_states": nn, "transitions": ne, "executed": res["paths"], "calls": res["steps"], "unrealised_alternatives": res["skipped"]}
     ctx.cov["traces_validated_against_impl"] += res["paths"]
@@ -318,12 +418,35 @@ def run(ctx):
     if not feats.get("panic"):
         need += ["err:SmfRecordFrom", "err:RecordTo"]
     for n in need:
-        if not feats.get(n):
+        if not feats.get(n) and not fails and not tfails:      # (a defect can remove an error path: then the rejected sequences speak)
             raise Machinery("generator did not produce feature %s" % n)
-    ctx.report(fails + tfails, lambda f: rerun(ctx, f.payload["record"])[0])
+    # ---- part M bookkeeping
+    mf = Counter()
+    for r in mrecs:
+        mf["new_ok" if r["newok"] else "new_refused"] += 1
+        for k in ("ins", "outs"):
+            mf["%s_%s" % (k, r[k + "ret"])] += 1
+            if r[k]["garbage"]:
+                mf["garbage"] += 1
+            if r[k]["rc"]:
+                mf["helper_fails"] += 1
+        if any(r["before"]):
+            mf["closed_open_ports_via_" + r["via"]] += 1
+    ctx.cov["midicatdrv"] = {"experiments": len(mrecs), "features": dict(mf)}
+    ctx.log("midicatdrv: %d experiments, %s" % (len(mrecs), dict(mf)))
+    ctx.count(4 * len(mrecs), [("m", r["id"]) for r in mrecs if any(r["before"]) or not r["newok"]])
+    ctx.cov["traces_validated_against_impl"] += 0
+    for n in ("new_ok", "new_refused", "ins_nil", "ins_err", "outs_nil", "outs_err", "garbage", "helper_fails", "closed_open_ports_via_driver", "closed_open_ports_via_registry"):
+        if not mf.get(n) and not mfails:
+            raise Machinery("midicatdrv generator did not produce feature %s" % n)
+    ctx.report(fails + tfails + mfails, lambda f: confirm(ctx, f))
 
 
 def replay(ctx, payload):
+    if payload["payload"].get("family") == "registry-mcat":
+        ok, new, info = mcat_rerun(ctx, payload["payload"]["record"])
+        print(mcat_describe(new, info)[:3000] if ok else json.dumps({"info": info}))
+        return ok
     ok, new, info = rerun(ctx, payload["payload"]["record"])
     print(describe(new, info)[:3000] if ok else json.dumps({"info": info}))
     return ok
